@@ -1611,6 +1611,9 @@ class MacroFunction(Macro):
             # If a token matches an argument, it is substituted;
             # otherwise it passes through
             try:
+                # The result of # is never a parameter, whatever it spells.
+                if isinstance(token, StringConstant):
+                    raise ValueError
                 substitution = input_args[self.args.index(token.token)][1]
                 if len(substitution) > 0:
                     substitution[0] = copy(substitution[0])
